@@ -25,6 +25,7 @@ func init() {
 func runC15(c *Ctx) {
 	c.rule("U1", "loading succeeds only through Validate(): every possibly-nil return of LoadFromEnvironment follows configurationToSet.Validate() and returns its (wrapped) result; Load/LoadFromViper delegate to it", 3)
 	c.rule("U2", "source order in LoadFromEnvironment: MergeConfigMap(defaults) → configuration file → linkFlagKeysToStructureKeys → Unmarshal → Validate", 4)
+	c.rule("U15", "the variable name a flag is bound to is made of the prefix and of the field's name: what cleanseEnvVar returns depends on both of its parameters", 1)
 	c.rule("U14", "linkFlagKeysToStructureKeys asks the session whether the flag is set (IsSet) for every structure key: no key is passed over on the strength of another list", 1)
 	c.rule("U3", "linkFlagKeysToStructureKeys: a set flag is written with Set(); the default of an unset flag is forced only where the structure key is empty", 2)
 	c.rule("U9", "the reporting side (the names listed, the name a validation error gives) replaces the configuration key separator in the prefix too, like the session's key replacer", 2)
@@ -247,6 +248,36 @@ func runC15(c *Ctx) {
 			c.check(skipped == nil, "U14", fname(lk)+"/every-structure-key-asked", c.ipos(isSet), "every structure key reaches IsSet(flag key) before the next key is looked at",
 				"a structure key can be passed over without the session being asked whether its flag is set (the iteration reaches "+c.iposOr(skipped)+" without IsSet): a flag that was explicitly set for such a key is never written to the override layer and loses to the environment variable, the file or the defaults")
 		}
+	}
+
+	// ---- U15 ----------------------------------------------------------------
+	// "the environment variable PREFIX_PATH_TO_FIELD" — for the variables bound to flags too. The name handed to BindEnv is made
+	// by cleanseEnvVar out of the prefix and the field's name: a name that lost its prefix on the way binds the flag to the
+	// variable PATH_TO_FIELD — USER, HOME, DB_PORT: whatever happens to be in the environment — which then counts as set, and is
+	// forced onto the field over its own variable, the file and the defaults.
+	if cev := c.fnOpt(cfgPkg, "cleanseEnvVar"); cev != nil && len(cev.Params) >= 2 {
+		c.FuncsSeen[fname(cev)] = true
+		usesPrefix, usesName, rets := true, true, 0
+		allInstrs(cev, func(in ssa.Instruction) {
+			r, ok := in.(*ssa.Return)
+			if !ok || len(r.Results) == 0 {
+				return
+			}
+			rets++
+			hasP, hasN := false, false
+			for _, l := range sources(r.Results[0], deriveOpts{through: func(string) bool { return true }}) {
+				if l == ssa.Value(cev.Params[0]) {
+					hasP = true
+				}
+				if l == ssa.Value(cev.Params[1]) {
+					hasN = true
+				}
+			}
+			usesPrefix = usesPrefix && hasP
+			usesName = usesName && hasN
+		})
+		c.check(rets > 0 && usesPrefix && usesName, "U15", fname(cev)+"/prefix-and-name", c.pos(cev.Pos()), "the name returned is made of the prefix and of the field's name",
+			"the name cleanseEnvVar returns no longer depends on "+map[bool]string{true: "the field's name", false: "the prefix"}[usesPrefix]+": flags are bound to the variable named like the field path alone (USER, HOME, DB_PORT) — a variable of that name in the environment counts as 'the flag is set' and is forced onto the field, above the field's own variable, the file and the defaults; none of the names DetermineConfigurationEnvironmentVariables reports")
 	}
 
 	// ---- U4 -----------------------------------------------------------------
